@@ -108,3 +108,16 @@ func Infra(format string, a ...any) {
 }
 
 var infraFlag atomic.Bool
+
+type inconclusive struct{}
+
+// Inconclusive gives up on the current case: a time budget was hit. The run goes on with the
+// other cases and ends with exit code 2 unless one of them shows a violation.
+func Inconclusive(format string, a ...any) {
+	fmt.Printf("INFRA: inconclusive case: "+format+"\n", a...)
+	infraFlag.Store(true)
+	if ev := currentEvidence.Load(); ev != nil {
+		ev.Note("inconclusive: " + fmt.Sprintf(format, a...))
+	}
+	panic(inconclusive{})
+}
